@@ -4,6 +4,7 @@ import (
 	"fmt"
 	"go/token"
 	"go/types"
+	"sort"
 	"strings"
 
 	"golang.org/x/tools/go/ssa"
@@ -12,7 +13,7 @@ import (
 func init() {
 	register(&Prop{
 		ID:         "C05",
-		Decided:    "(1) the synchronous (processDirectDataSync) and asynchronous (processDirectData) paths are the same pipeline: enrichData -> applyWhereAndAnalytic -> projectDirectRow -> delivery, each stage dominating the next and fed with the previous stage's output, and the only other module calls on the way are the frozen async extras; (2) rows are received from the input buffer only by the single processing goroutine (and the expansion migration), synchronous sinks are invoked inline in slice order (no go / channel hand-off in that loop); (3) a row rejected by WHERE produces nothing: applyWhereAndAnalytic returns keep=false whenever the predicate is false, and projection/delivery are reached only under keep=true; (4) the caller's row is not written (shared with C20, ownmap). Also: the evaluation methods of the shared predicate/expression objects (condition.ExprCondition, expr.Expression) keep no per-evaluation state in the object (no store through the receiver, no receiver-owned address handed to code outside the module). Also: every receive from Stream.dataChan holds dataChanMux (a consumer cannot take a row out of the middle of a buffer migration); no delivered row and no result returned by EmitSync is the caller's own map. Also: in package functions a failing run of a program obtained from the bridge's process-wide compile cache (compiled against another row's value types) is always followed by the evaluation against the row itself (expr.Eval) before an error is returned (flow/cached-program-failure-falls-back).",
+		Decided:    "(1) the synchronous (processDirectDataSync) and asynchronous (processDirectData) paths are the same pipeline: enrichData -> applyWhereAndAnalytic -> projectDirectRow -> delivery, each stage dominating the next and fed with the previous stage's output, and the only other module calls on the way are the frozen async extras; (2) rows are received from the input buffer only by the single processing goroutine (and the expansion migration), synchronous sinks are invoked inline in slice order (no go / channel hand-off in that loop); (3) a row rejected by WHERE produces nothing: applyWhereAndAnalytic returns keep=false whenever the predicate is false, and projection/delivery are reached only under keep=true; (4) the caller's row is not written (shared with C20, ownmap). Also: the evaluation methods of the shared predicate/expression objects (condition.ExprCondition, expr.Expression) keep no per-evaluation state in the object (no store through the receiver, no receiver-owned address handed to code outside the module). Also: every receive from Stream.dataChan holds dataChanMux (a consumer cannot take a row out of the middle of a buffer migration); no delivered row and no result returned by EmitSync is the caller's own map. Also: in package functions a failing run of a program obtained from the bridge's process-wide compile cache (compiled against another row's value types) is always followed by the evaluation against the row itself (expr.Eval) before an error is returned (flow/cached-program-failure-falls-back). Also: no struct type and no package-level variable of the module holds an expr-lang vm.VM (ownmap/no-retained-vm): the run-time state of one evaluation is never kept in an object shared by concurrent evaluations or by all instances of the process.",
 		NotDecided: "projection values (aliases, nested paths, *), that the result contains exactly the selected columns, history independence of expression caches, order under the asynchronous worker pool (documented as unordered).",
 		Run:        runC05,
 	})
@@ -196,6 +197,7 @@ func runC05(a *A) {
 	})
 	a.Rule("flow/fresh-channel-per-iteration", 1, func() { a.ruleFreshChannelPerIteration() })
 	a.Rule("whomay/evaluators-read-only", 5, func() { a.ruleEvaluatorsReadOnly() })
+	a.Rule("ownmap/no-retained-vm", 1, func() { a.ruleNoRetainedVM() })
 	a.Rule("locks/receive-under-lock", 2, func() { a.ruleReceiveUnderLock() })
 	a.Rule("ownmap/caller-map-not-handed-out", 5, func() { a.ruleCallerMapNotHandedOut() })
 	a.Rule("flow/cached-program-failure-falls-back", 1, func() { a.ruleCachedProgramFailureFallsBack() })
@@ -434,4 +436,77 @@ func (a *A) ruleEvaluatorsReadOnly() {
 	if n == 0 {
 		a.Und("evaluators", token.NoPos, "no Evaluate method found")
 	}
+}
+
+// ruleNoRetainedVM: an expr-lang vm.VM is the run-time state of one evaluation (stack, scopes,
+// instruction pointer); expr.Run makes a fresh one per call. The compiled predicates and the bridge's
+// program cache are shared by every goroutine that calls Emit/EmitSync and by every Streamsql instance
+// of the process, so a VM kept in any of the module's data structures is per-evaluation state in a
+// shared object: concurrent evaluations corrupt each other's stack and silently return wrong values.
+// No struct type and no package-level variable of the module holds a vm.VM (by value, pointer, slice,
+// map, channel or array).
+func (a *A) ruleNoRetainedVM() int {
+	isVM := func(t types.Type) bool {
+		n, ok := types.Unalias(t).(*types.Named)
+		return ok && n.Obj().Name() == "VM" && n.Obj().Pkg() != nil && n.Obj().Pkg().Path() == "github.com/expr-lang/expr/vm"
+	}
+	var mentions func(t types.Type, d int) bool
+	mentions = func(t types.Type, d int) bool {
+		if d > 6 {
+			return false
+		}
+		if isVM(t) {
+			return true
+		}
+		switch x := types.Unalias(t).(type) {
+		case *types.Pointer:
+			return mentions(x.Elem(), d+1)
+		case *types.Slice:
+			return mentions(x.Elem(), d+1)
+		case *types.Array:
+			return mentions(x.Elem(), d+1)
+		case *types.Chan:
+			return mentions(x.Elem(), d+1)
+		case *types.Map:
+			return mentions(x.Key(), d+1) || mentions(x.Elem(), d+1)
+		}
+		return false
+	}
+	n := 0
+	var bad []string
+	for _, p := range a.Prog.AllPackages() {
+		if p.Pkg == nil || !a.inModule(p.Pkg) {
+			continue
+		}
+		sc := p.Pkg.Scope()
+		for _, nm := range sc.Names() {
+			switch o := sc.Lookup(nm).(type) {
+			case *types.TypeName:
+				st, ok := o.Type().Underlying().(*types.Struct)
+				if !ok {
+					continue
+				}
+				n++
+				for i := 0; i < st.NumFields(); i++ {
+					if mentions(st.Field(i).Type(), 0) {
+						bad = append(bad, fmt.Sprintf("%s.%s.%s", p.Pkg.Name(), nm, st.Field(i).Name()))
+					}
+				}
+			case *types.Var:
+				n++
+				if mentions(o.Type(), 0) {
+					bad = append(bad, fmt.Sprintf("%s.%s (package variable)", p.Pkg.Name(), nm))
+				}
+			}
+		}
+	}
+	sort.Strings(bad)
+	if n < 100 {
+		a.Und("module#no-retained-vm", token.NoPos, "only %d struct types and package variables were found in the module: the scan has gone blind", n)
+		return n
+	}
+	a.Check(len(bad) == 0, "module#no-retained-vm", token.NoPos,
+		fmt.Sprintf("none of the module's %d struct types and package variables holds an expr-lang vm.VM", n),
+		"an expr-lang vm.VM is kept in "+strings.Join(bad, ", ")+": the VM is the state of one evaluation, and these objects are shared by concurrent evaluations (all goroutines calling Emit/EmitSync, every Streamsql instance through the process-wide program cache) — their stacks get mixed and wrong values are returned silently")
+	return n
 }
